@@ -3,7 +3,11 @@
 p=$1; shift; checks=${@:-$p}
 wt=/tmp/wt_$p
 cd $wt
-git stash -q; PYTHONPATH=$wt timeout 1200 /venv/bin/python _seeded/demo.py > /tmp/demo_clean_$p.log 2>&1; echo "$p demo clean rc=$?"; git stash pop -q
+git diff -- basic_robotics > /tmp/cur_$p.diff
+if ! diff -q /tmp/cur_$p.diff _seeded/patch.diff >/dev/null; then echo "$p WARNING: worktree diff differs from _seeded/patch.diff; resetting to the saved patch"; git checkout -- basic_robotics; git apply _seeded/patch.diff || exit 1; fi
+git apply -R _seeded/patch.diff || exit 1
+PYTHONPATH=$wt timeout 1200 /venv/bin/python _seeded/demo.py > /tmp/demo_clean_$p.log 2>&1; echo "$p demo clean rc=$?"
+git apply _seeded/patch.diff || exit 1
 PYTHONPATH=$wt timeout 1200 /venv/bin/python _seeded/demo.py > /tmp/demo_patched_$p.log 2>&1; echo "$p demo patched rc=$? $(tail -1 /tmp/demo_patched_$p.log | cut -c1-160)"
 cd /verif
 for c in $checks; do echo "-- check $c"; VERIF_REPO_ROOT=$wt ./check $c --no-evidence 2>&1 | grep "clause=\|HELD\|VIOLATED\|INCONCL" | cut -c1-250 | head -4; done
